@@ -1,14 +1,23 @@
 import ErrModel.Proofs.EngineBasic
+import ErrModel.Proofs.EngineLW
+import ErrModel.Proofs.LexUnlex
 /-
   C06 — Redactable renderings are well-formed and congruent with plain ones.
 
-  Proved here about the engine model: unsupported verbs are refused in redactable mode;
-  every entry that was not produced by a SafeFormatError method is escaped and enclosed by
-  `redact.EscapeBytes` before it enters a redactable rendering; the plain rendering is
-  built from the same buffers with the markers stripped (the two modes run the same write
-  machine on the same operations).  That `EscapeBytes` / `Sprintf` outputs are themselves
-  balanced per line is the contract of the redact package (model: Basic/Redact.lean, tied
-  by the RC stream); see DESIGN (trusted base) for what remains conditional on it.
+  Main theorem (`C06_wellformed`): for EVERY error whose stored redactable strings are
+  well-formed (`WFE`: the messages / prefixes built by `redact.Sprintf` at construction — whatever
+  the format arguments, hints, details, paths, tag keys and values, domains, type names,
+  opaque messages ... contain: marker runes, newlines anywhere, NUL, invalid UTF-8), the
+  redactable rendering with `%v`/`%s`/`%+v`, what `redact.Sprintf("%v", err)` returns, and
+  its `Redact()` form are line-well-formed (`LW`: markers balanced, never nested, balanced
+  within every line).  It is proved on the token form of the rendering through the whole
+  engine: the redact buffer model (`LW_assembleT`, `LW_escapeBytesT`, `LW_redactT`), the
+  `state.Write` machine (`writeLoop_inv`), entry collection and the two layouts, by mutual
+  induction over the error tree including hidden and multi-cause parts (`ents_inv`).
+  `C06_bytes` transfers it to the byte string when no three plain bytes of the rendering
+  spell a marker (`NoSpell`).  Also: unsupported verbs are refused; non-redactable entries
+  are escaped by `redact.EscapeBytes`; the plain and redactable modes collect the same
+  buffers (`C06_collect_congruent`).
 -/
 namespace ErrModel
 
@@ -62,5 +71,47 @@ theorem C06_collect_congruent (s : LState) (b wd : Bool) (d : Nat) (t : Str) :
     (collect s b false wd d t).details = (if b then bytesT (stripT (collect s b true wd d t).details) else (collect s b true wd d t).details) := by
   unfold collect
   cases b <;> simp
+
+/-! ### well-formedness of redactable renderings, for all string contents -/
+
+/-- `%v` / `%s` (detail = false) and `%+v` (detail = true) in redactable mode -/
+theorem C06_wellformed (e : Err) (h : WFE e) (detail : Bool) : LW (renderT true detail e) :=
+  renderT_LW true detail e h
+
+/-- what `redact.Sprintf("%v" / "%+v", err)` returns: the rendering passed through the redact printer -/
+theorem C06_wellformed_sprintf (e : Err) (h : WFE e) (detail : Bool) :
+    LW (assembleT [.preT (renderT true detail e)]) :=
+  LW_assembleT _ (by intro g hg; simp at hg; subst hg; exact renderT_LW true detail e h)
+
+/-- and its `Redact()` form -/
+theorem C06_wellformed_redacted (e : Err) (h : WFE e) (detail : Bool) :
+    LW (redactT (assembleT [.preT (renderT true detail e)])) :=
+  LW_redactT _ (C06_wellformed_sprintf e h detail)
+
+/-- the plain rendering contains no marker token at all -/
+theorem C06_plain_no_markers_in_entries (s : LState) (b wd : Bool) (d : Nat) (t : Str) (hb : b = true) :
+    AllBytes (collect s b false wd d t).head ∧ AllBytes (collect s b false wd d t).details := by
+  subst hb
+  constructor <;> simp [collect] <;> exact allBytes_bytesT _
+
+/-- on bytes: the string a caller receives is `unlex` of the tokens; lexing it gives the same
+    tokens back — hence the same well-formedness — unless three adjacent plain bytes of the
+    rendering spell a marker -/
+theorem C06_bytes (e : Err) (h : WFE e) (detail : Bool) (hs : NoSpell (renderT true detail e)) :
+    LW (lex (render true detail e)) := by
+  unfold render
+  rw [lex_unlex _ hs]
+  exact renderT_LW true detail e h
+
+/-- the hypothesis is met by what the constructors store: a message assembled by the redact
+    printer is well-formed (and so are all its byte-level readings without a spelled marker) -/
+theorem C06_stored_by_constructors (segs : List SegT) (hs : ∀ g ∈ segs, g.ok) (hn : NoSpell (assembleT segs)) :
+    LW (lex (unlex (assembleT segs))) := by
+  rw [lex_unlex _ hn]; exact LW_assembleT segs hs
+
+/-- a concrete hostile instance of the hypothesis: unsafe pieces with marker runes, newlines at
+    both ends, NUL and invalid UTF-8 between safe pieces with a marker rune -/
+example : LW (assembleT [.lit (b!"a‹b: "), .arg ([10, 0xE2, 0x80, 0xB9, 0xFF, 10, 10, 0, 10]), .lit (b!" ›"), .arg []]) :=
+  LW_assembleT _ (by intro g hg; simp at hg; rcases hg with rfl | rfl | rfl | rfl <;> trivial)
 
 end ErrModel
